@@ -33,6 +33,7 @@ fn run(o: &Opts) {
     let thorough = o.thorough();
     let mut total_rcvd = 0u64;
     let mut total_dropped_dups = 0u64;
+    let mut total_closing = 0u64;
     for chunk in ids.chunks(6) {
         sink.pending(&format!("cases {chunk:?}"));
         eprintln!("gmq-sim c02_wire: running cases {chunk:?} (re-run one with --only-case)");
@@ -71,11 +72,33 @@ fn run(o: &Opts) {
             }
             for ep in ["client", "server"] {
                 let peer = if ep == "client" { "server" } else { "client" };
+                // The instant the endpoint's connection stopped being OPEN: its application closed it (`close <ep>`) or
+                // `Connection::terminated` resolved (`term <ep>`).  From then on the closing / draining receive path
+                // (qconnection/src/space/data.rs `parse_closing_one_rtt_packet`) decrypts every packet only to look for a
+                // CONNECTION_CLOSE frame and answers with its own (RFC 9000 §10.2.1): no frame is dispatched, nothing is
+                // recorded in the receive journal — so a duplicate decodes again — but `read_plain_packet` still logs
+                // `packet_received`.  "Dispatched twice" is a statement about an open connection: only packets logged
+                // strictly before that instant are counted; the rest is reported as `closing=<n>`.
+                let e1 = if ep == "client" { "c" } else { "s" };
+                let cut = out.result.as_ref().and_then(|r| {
+                    let t0 = r.hist_start?;
+                    r.evs.iter().filter(|ev| ev.ep == e1 && (ev.op.starts_with("close ") || ev.op.starts_with("term "))).map(|ev| t0 + Duration::from_micros(ev.t_us)).min()
+                });
+                let mut closing = 0u64;
                 let sent_by_peer: BTreeSet<(String, u64)> = pk.iter().filter(|e| !e.rcvd && e.ep == peer).filter_map(|e| e.pn.map(|n| (e.ty.clone(), n))).collect();
                 let mut seen = BTreeMap::<(String, u64), u64>::new();
                 let (mut dup, mut alien, mut nr) = (0u64, 0u64, 0u64);
                 for e in pk.iter().filter(|e| e.rcvd && e.ep == ep) {
                     let Some(pn) = e.pn else { continue };
+                    if cut.is_some_and(|c| e.at >= c) {
+                        closing += 1;
+                        // still must be a packet the peer sent (authenticity does not end with the connection)
+                        if !sent_by_peer.contains(&(e.ty.clone(), pn)) {
+                            alien += 1;
+                            sink.monitor_fail(&format!("wire:received-never-sent:{}", e.ty), &format!("{ep} (closing) accepted {} packet number {pn} that the {peer} never sent (profile {}; frames {:?})", e.ty, profile.name, e.frames));
+                        }
+                        continue;
+                    }
                     nr += 1;
                     let k = (e.ty.clone(), pn);
                     let c = seen.entry(k.clone()).or_insert(0);
@@ -90,7 +113,8 @@ fn run(o: &Opts) {
                     }
                 }
                 total_rcvd += nr;
-                sink.line(&format!("wire {ep} rcvd={nr} peer_sent={} dup={dup} alien={alien}", sent_by_peer.len()), "ok");
+                sink.line(&format!("wire {ep} rcvd={nr} peer_sent={} dup={dup} alien={alien} closing={closing}", sent_by_peer.len()), "ok");
+                total_closing += closing;
                 for e in pk.iter().filter(|e| e.rcvd && e.ep == ep) {
                     sink.branch(&format!("rcvd:{}", e.ty));
                 }
@@ -99,6 +123,7 @@ fn run(o: &Opts) {
         }
     }
     sink.note("packets_dispatched", serde_json::json!(total_rcvd));
+    sink.note("packets_logged_in_closing_state", serde_json::json!(total_closing));
     sink.note("duplicates_and_replays_delivered", serde_json::json!(total_dropped_dups));
     if total_rcvd == 0 && o.only_case.is_none() && o.cases > 0 {
         sink.monitor_fail("wire:no-events", "no packet_received event was captured: the leg would be vacuous");
